@@ -163,3 +163,19 @@ package badger
 //@        visited[elems(inactive)[p]] && wasT(nodeID, peers, elems(inactive)[p]) && !(chk(nodeID, peers, elems(inactive)[p]) > inactiveDeadline)
 //@ loop 1 invariant [report-complete] forall k store.NodeID :: visited[k] && wasT(nodeID, peers, k) && !(chk(nodeID, peers, k) > inactiveDeadline) ==> store.inList(inactive, k)
 //@ loop 1 invariant [distinct] forall p int, q int :: off(inactive) <= p && p < q && q < off(inactive) + len(inactive) ==> elems(inactive)[p] != elems(inactive)[q]
+
+// ---- listing (C08): ActiveHosts walks the node key space ---------------------------------------
+// idOfKey(k): the node id a key of the node key space is made from
+//@ func (*badgerStore).ActiveHosts
+//@ property C08 C12 C13
+//@ requires dbInv(s)
+//@ ensures [db-inv] {C12 C13} dbInv(s)
+//@ implements store.PoolStore.ActiveHosts
+//@ ensures [read-only] {C13} txncount() <= 1
+
+//@ func (*badgerStore).ActiveHosts$1
+//@ loop 0 invariant [db]       dbInvK() && seenSince == clock() - store.ExpireInterval
+//@ loop 0 invariant [members]  forall p int :: off(r) <= p && p < off(r) + len(r) ==>
+//@        itvisited(it, nodeKey(elems(r)[p].ID)) && kvlive(nodeKey(elems(r)[p].ID)) && elems(r)[p] == kvget("store.Node", nodeKey(elems(r)[p].ID)) && store.eligibleHost(elems(r)[p], kind, seenSince)
+//@ loop 0 invariant [complete] forall k store.NodeID :: itvisited(it, nodeKey(k)) && kvlive(nodeKey(k)) && store.eligibleHost(kvget("store.Node", nodeKey(k)), kind, seenSince) ==> store.hasNode(r, k)
+//@ loop 0 invariant [distinct] store.distinctIDs(r)
